@@ -22,6 +22,10 @@ package main
 //	rxAppDataGuard                 source text of the condition of the first `if` in
 //	                               `case recordTypeApplicationData:` (refused with unexpected_message)
 //	rxSwitchCases                  the record types the switch names, in order
+//	rxSendAlertStmts               the statements of Conn.sendAlert, in order (normalised source): the
+//	rxSendAlertLockedStmts         model's `failAlert` = "send, then latch the local error" is a
+//	                               transcription of exactly these; any other statement (an early
+//	                               return, a condition on closeNotifySent, …) moves the fact
 
 import (
 	"go/ast"
@@ -176,6 +180,15 @@ func emitRecordRx(e *emitter, p *pkg) {
 			}
 		}
 	}
+	stmts := func(fn string) []string {
+		var out []string
+		for _, st := range body(p, fn) {
+			out = append(out, p.src(st))
+		}
+		return out
+	}
+	e.strList("rxSendAlertStmts", stmts("Conn.sendAlert"))
+	e.strList("rxSendAlertLockedStmts", stmts("Conn.sendAlertLocked"))
 	e.boolean("rxPostHandshakeRefused", postHs)
 	e.boolean("rxSwitchDefaultRefuses", defRefuses)
 	e.str("rxAppDataGuard", guard)
